@@ -272,18 +272,18 @@ def gen_case(rng, quick=True):
 
 def with_form(rng, case, p_history=0.15):
     """the input form (the document written by the real write_yaml - default -, the tree itself, a hand-spelled text,
-    the name of a file holding either text) and what the process did before (other loads, the same source twice)"""
+    the name of a file or an open text stream holding either text) and what the process did before (other loads, the same source twice)"""
     r = rng.random()
     if r < 0.18:
         case["via"] = "tree"
     elif r < 0.28:
-        case["via"] = "file"
+        case["via"] = rng.choice(["file", "file", "stream"])
     elif r < 0.50:
         t = nb.spell(rng, nc.to_py(case["doc"]))
         if t is not None:
             case["text"] = t
-            if rng.random() < 0.25:
-                case["via"] = "file"
+            if rng.random() < 0.35:
+                case["via"] = rng.choice(["file", "file", "stream"])
     if rng.random() < p_history:
         try:
             case["history"] = nb.histories(rng, case["doc"])
@@ -345,8 +345,8 @@ def run(ctx, out, replay=None):
                 "position (half of them boundary instances); 8% near misses; 7% decimal (oracle only); (c) sizes: documents with "
                 "9..257 (thorough 1001) modules, nets of 9..65 (257) members, 33..101 (1001) nets, 9..65 (161) rectangles in a "
                 "module, names of 32..4097 (8193) characters, 9..33 (101) regions; (d) input forms: half of the new streams are "
-                "given as the tree itself, as hand-spelled YAML text (1e3, +2, .5, 0x1F, quoted names, ~) or as the name of a "
-                "file; 15% after a history (other designs with the same module names, the design scaled, a rejected variant, the "
+                "given as the tree itself, as hand-spelled YAML text (1e3, +2, .5, 0x1F, quoted names, ~), as the name of a "
+                "file or as an open text stream; 15% after a history (other designs with the same module names, the design scaled, a rejected variant, the "
                 "design itself - loaded and written in the same process before) and 8% with the same source loaded twice; "
                 "non-trivial = at least two modules and a net or two rectangles; distinct by hash")
     cases = []
